@@ -15,6 +15,11 @@ import (
 	"verif/harness/vk"
 )
 
+// keep registers a returned result for later re-validation (set in init: the checker refers to check).
+var keep func(func() string)
+
+func init() { keep = checker.Keep }
+
 func TestMain(m *testing.M) { vk.Main(m, "C11") }
 
 type Case struct {
@@ -127,6 +132,18 @@ func check(c Case) *vk.Failure {
 			if got[i] != want[i] {
 				return vk.Failf("pathsof", "PathsOf(keys %x, from=%d, h=%d, dedup=%v)[%d] = %#x, want %#x", keys, c.From, c.W, c.Dedup, i, got[i], want[i])
 			}
+		}
+		vk.ScribbleU64(got)
+		{
+			kept, expect, nk := got, want, len(keys)
+			keep(func() string {
+				for i := range expect {
+					if kept[i] != expect[i] {
+						return fmt.Sprintf("PathsOf(%d keys) returned %#x at position %d, which now reads %#x", nk, expect[i], i, kept[i])
+					}
+				}
+				return ""
+			})
 		}
 		for i, k := range keys {
 			if string(c.Keys[i]) != k {
